@@ -19,6 +19,9 @@ mod helpers {
     pub fn fp<T: PartialOrd + ?Sized>(a: &T, b: &T) -> Option<Ordering> { a.partial_cmp(b) }
     pub fn fh<T: Hash + ?Sized, H: Hasher>(a: &T, h: &mut H) { a.hash(h) }
     pub fn ksz<T: ?Sized>(_: &T) -> u8 { 0 }
+    /// a key function reached through `Self` (F32: `Self` in a key expression, also under `Eq`)
+    pub trait HasK { fn kself<Z: ?Sized>(_: &Z) -> u8 { 0 } }
+    impl<T: ?Sized> HasK for T {}
     /// user functions called like locals the expansion has (had) of its own: imported unqualified where key expressions use them
     pub fn _eq<T: ?Sized>(_: &T) -> u8 { 0 }
     pub fn _f<T: ?Sized>(_: &T) -> u8 { 0 }
@@ -232,7 +235,8 @@ def gen_item(rng, names=None, want_enum=None, allow_attrs=True, plain=False, abs
             elif r < 0.18 and ('PartialOrd' in traits):
                 out.append('#[ord(reverse)]')
             elif r < 0.30:
-                out.append(rng.choice(['#[ord(key = helpers::ksz(&$))]', '#[ord(key = helpers::ksz(&$))]', '#[ord(key = _eq(&$))]', '#[ord(key = _f(&$))]']))
+                out.append(rng.choice(['#[ord(key = helpers::ksz(&$))]', '#[ord(key = helpers::ksz(&$))]', '#[ord(key = _eq(&$))]', '#[ord(key = _f(&$))]',
+                                       '#[ord(key = <Self as helpers::HasK>::kself(&$))]']))
             elif r < 0.45:
                 # `by` on first / middle / last fields, also on fields of generic type (with an explicit bound)
                 b = ', bound(..)' if rng.random() < 0.3 else ''
